@@ -394,11 +394,11 @@ def check_static(ctx, rng, apps, validators):
     elif r < 0.5 and v:
         hdrs.append(("If-None-Match", rng.choice([v[0], "W/" + v[0], f'"x", {v[0]}', "*", '"other"', ""])))
         if rng.random() < 0.5:
-            hdrs.append(("If-Modified-Since", rng.choice([v[1], "Wed, 21 Oct 2015 07:28:00 GMT", "junk", "Fri, 01 Jan 2100 00:00:00 GMT"])))
+            hdrs.append(("If-Modified-Since", rng.choice([v[1], "Wed, 21 Oct 2015 07:28:00 GMT", "junk", "Fri, 01 Jan 2100 00:00:00 GMT", "Sat, 01 Jan 2022 00:00:00 GMT"])))  # the last one lies between the files' mtime (2020) and ctime (now)
         if rng.random() < 0.15:
             hdrs.append(("Range", rng.choice(["bytes=0-1", "bytes=1-"])))
     elif r < 0.6 and v:
-        hdrs.append(("If-Modified-Since", rng.choice([v[1], "Wed, 21 Oct 2015 07:28:00 GMT", "Fri, 01 Jan 2100 00:00:00 GMT"])))
+        hdrs.append(("If-Modified-Since", rng.choice([v[1], "Wed, 21 Oct 2015 07:28:00 GMT", "Fri, 01 Jan 2100 00:00:00 GMT", "Sat, 01 Jan 2022 00:00:00 GMT"])))
     method = rng.choice(["GET", "GET", "HEAD"])
     req = drivers.Req(method=method, path=path.encode("utf-8"), headers=hdrs, query=rng.choice([b"", b"v=1"]))
     obs = {iface: observe(iface, apps[(iface, kind)], req) for iface in ("wsgi", "asgi")}
